@@ -80,7 +80,7 @@ func checkBuild(p *rc.Packet, autoID bool) {
 	}
 	if ln != n || n != len(want) {
 		sig := "c03:len:" + tn
-		if autoID && n == len(want)-2 {
+		if autoID && n == len(want)-2 && idOffset(cp, want) >= 0 {
 			sig = "c03:autoid-zero:" + tn
 		}
 		out.Violation(sig, fmt.Sprintf("Len()=%d, Encode wrote %d, MQTT encoding has %d bytes", ln, n, len(want)), recSummary(p))
